@@ -174,3 +174,56 @@ def install_dirs_project():
     files['dup.txt'] = 'd\n'
     files['meson.build'] = '\n'.join(mb) + '\n'
     return files
+
+
+def install_names_project():
+    """Every install function x every documented keyword that changes the NAME (not only the directory) under which a file is
+    installed: install_man(locale:) for pages with and without the locale infix, install_data(rename:, preserve_path:),
+    install_headers(subdir:, preserve_path:), install_subdir(strip_directory:), name_prefix / name_suffix / version / soversion of
+    targets, both_libraries, custom targets with one install_dir per output (false = not installed), install_symlink."""
+    mb = ["project('inp', 'c', version: '1')"]
+    files = {'main.c': 'int main(void) { return 0; }\n', 'lib.c': 'int inp_f(void) { return 1; }\n', 'in.txt': 'x\n'}
+    pages = ['foo.1', 'foo.fr.1', 'bar.fr.3', 'my.frobnicator.fr.1', 'fr.fr.1', 'x.de.fr.5', 'plain.7']
+    for p in pages:
+        files['man/' + p] = '.TH X\n'
+    mb.append("install_man(%s)" % ', '.join("'man/%s'" % p for p in ['foo.1', 'plain.7']))
+    mb.append("install_man(%s, locale: 'fr')" % ', '.join("'man/%s'" % p for p in ['foo.fr.1', 'bar.fr.3', 'my.frobnicator.fr.1', 'fr.fr.1', 'x.de.fr.5']))
+    files['man/nl/only.1'] = '.TH X\n'
+    files['man/nl/only.de.1'] = '.TH X\n'
+    mb.append("install_man('man/nl/only.1', locale: 'de')")
+    mb.append("install_man('man/nl/only.de.1', locale: 'de', install_dir: 'share/altman')")
+    for k, (srcs, kw) in enumerate([
+            (['d/a.txt'], "rename: 'A.TXT'"),
+            (['d/b.txt', 'd/c.txt'], "rename: ['sub/B.txt', 'C']"),
+            (['d/deep/e.txt', 'd/f.txt'], "preserve_path: true"),
+            (['d/deep/g.txt'], "preserve_path: false"),
+            (['d/h.txt'], "install_dir: 'share/inp/h', rename: 'h.renamed'")]):
+        for s in srcs:
+            files[s] = 'x\n'
+        mb.append("install_data(%s, %s%s)" % (', '.join("'%s'" % s for s in srcs), kw, '' if 'install_dir' in kw else ", install_dir: 'share/inp/data%d'" % k))
+    for k, (srcs, kw) in enumerate([(['h/a.h'], "subdir: 'inp'"), (['h/deep/b.h', 'h/c.h'], "subdir: 'inp2', preserve_path: true"),
+                                    (['h/deep/d.h'], "preserve_path: false")]):
+        for s in srcs:
+            files[s] = '/* h */\n'
+        mb.append("install_headers(%s, %s)" % (', '.join("'%s'" % s for s in srcs), kw))
+    for k, kw in enumerate(["strip_directory: true", "strip_directory: false", "strip_directory: true, exclude_files: ['skip.txt']"]):
+        files['tree%d/inner/leaf.txt' % k] = 'leaf\n'
+        files['tree%d/skip.txt' % k] = 's\n'
+        mb.append("install_subdir('tree%d', install_dir: 'share/inp/sd%d', %s)" % (k, k, kw))
+    files['outer/tree9/leaf.txt'] = 'leaf\n'
+    mb.append("install_subdir('outer/tree9', install_dir: 'share/inp/sd9')")
+    mb.append("executable('e_suffix', 'main.c', install: true, name_suffix: 'bin')")
+    mb.append("executable('e_prefix', 'main.c', install: true, name_prefix: 'pre-')")
+    mb.append("shared_library('sv', 'lib.c', install: true, version: '1.2.3', soversion: '1')")
+    mb.append("shared_library('so', 'lib.c', install: true, soversion: '4')")
+    mb.append("shared_library('np', 'lib.c', install: true, name_prefix: '', name_suffix: 'plugin')")
+    mb.append("both_libraries('bl', 'lib.c', install: true)")
+    mb.append("static_library('sl', 'lib.c', install: true, name_prefix: 'x', name_suffix: 'lib')")
+    mb.append("shared_module('mod', 'lib.c', install: true, install_dir: 'lib/inp-mods')")
+    mb.append("custom_target('multi', input: 'in.txt', output: ['m1.txt', 'm2.txt', 'm3.txt'], command: ['sh', '-c', 'for f in \"$@\"; do cp in.txt \"$f\" 2>/dev/null || echo x > \"$f\"; done', 'sh', '@OUTPUT@'], "
+              "build_by_default: true, install: true, install_dir: ['share/inp/m1', false, 'share/inp/m3'])")
+    mb.append("configure_file(input: 'in.txt', output: 'conf.out', copy: true, install: true, install_dir: 'share/inp/conf')")
+    mb.append("install_symlink('ln.fr.1', pointing_to: 'foo.1', install_dir: 'share/inp/links')")
+    mb.append("install_emptydir('share/inp/empty.fr')")
+    files['meson.build'] = '\n'.join(mb) + '\n'
+    return files
